@@ -376,7 +376,7 @@ func cmdRun(args []string) int {
 		all = append(all, reps...)
 		errs = append(errs, es...)
 	}
-	return finish(chk, *tier, seed, all, errs, time.Since(start).Seconds())
+	return finish(chk, *tier, seed, all, errs, time.Since(start).Seconds(), *only == "")
 }
 
 func runJob(bin string, job Job, scns []string, tier string, budgetS float64, seed int64) ([]*workerReport, []string) {
@@ -556,7 +556,7 @@ func matchKnown(k []knownFinding, prop string, v violation) *knownFinding {
 	return nil
 }
 
-func finish(chk *Check, tier string, seed int64, reps []*workerReport, errs []string, wall float64) int {
+func finish(chk *Check, tier string, seed int64, reps []*workerReport, errs []string, wall float64, full bool) int {
 	known := loadKnown()
 	type agg struct {
 		Scenario    string           `json:"scenario"`
@@ -577,7 +577,7 @@ func finish(chk *Check, tier string, seed int64, reps []*workerReport, errs []st
 	}
 	byScn := map[string]*agg{}
 	var order []string
-	var samples []interface{}
+	samples := []interface{}{}
 	perScn := map[string]int{}
 	var viols []violation
 	seenV := map[string]bool{}
@@ -658,6 +658,19 @@ func finish(chk *Check, tier string, seed int64, reps []*workerReport, errs []st
 			exhaustive = false
 		}
 	}
+	// every scenario shows at least one concrete case
+	for _, s := range order {
+		if perScn[s] == 0 {
+			a := byScn[s]
+			one := "(no case recorded)"
+			for k := range a.Outcomes {
+				if one == "(no case recorded)" || k < one {
+					one = k
+				}
+			}
+			samples = append(samples, map[string]interface{}{"scenario": s, "case": map[string]interface{}{"observed_outcome": one, "executions": a.Execs}})
+		}
+	}
 	sort.Slice(viols, func(i, j int) bool { return viols[i].Scenario+viols[i].Sig < viols[j].Scenario+viols[j].Sig })
 
 	rc := 0
@@ -725,7 +738,7 @@ func finish(chk *Check, tier string, seed int64, reps []*workerReport, errs []st
 		"wall_s":      wall,
 		"violations":  nviol,
 	}
-	if rc != 2 {
+	if rc != 2 && full { // a run restricted to one scenario does not describe the check
 		os.MkdirAll(filepath.Join(verifDir, "evidence"), 0o755)
 		b, _ := json.MarshalIndent(ev, "", " ")
 		os.WriteFile(filepath.Join(verifDir, "evidence", chk.ID+".json"), append(b, '\n'), 0o644)
